@@ -139,3 +139,39 @@ func join(xs []string) string {
 	}
 	return out
 }
+
+// guardedAccess: fields declared `guarded T.f by m` may be read only while the mutex field m
+// of the same object is held (in any mode) and written only while it is write-locked.
+// Functions whose contract says `unshared` (constructors: the object is not published yet)
+// are exempt.
+func (c *FnCtx) guardedAccess(env *Env, obj string, structT types.Type, st *types.Struct, f *types.Var, write bool, n ast.Node) {
+	if c.inSpec > 0 || c.noSafety {
+		return
+	}
+	named, ok := c.subst(structT).(*types.Named)
+	if !ok || named.Obj().Pkg() == nil {
+		return
+	}
+	mname, ok := c.E.Guarded[named.Obj().Pkg().Path()+"."+named.Obj().Name()+"."+f.Name()]
+	if !ok {
+		return
+	}
+	if c.C != nil && c.C.Unshared {
+		return
+	}
+	var mf *types.Var
+	for i := 0; i < st.NumFields(); i++ {
+		if st.Field(i).Name() == mname {
+			mf = st.Field(i)
+		}
+	}
+	if mf == nil {
+		return
+	}
+	ls := c.ghostGet(env.st, "lockstate", c.interiorAddr(obj, structT, mf))
+	if write {
+		c.safe(env.st, "guarded-write", eq(ls, "(- 1)"), n)
+	} else {
+		c.safe(env.st, "guarded-read", not(eq(ls, "0")), n)
+	}
+}
